@@ -1,10 +1,739 @@
 import DswModel.Model.Spiderweb
 import DswModel.Lemmas.CoderDefs
 import DswModel.Lemmas.Digit
+import DswModel.Lemmas.Vt
 import DswModel.Props.C15
 import DswModel.Props.C16
 import DswModel.Props.C18
 /-! Helper lemmas for encode/decode (CoderFast). -/
 namespace Dsw
+
+/-! ### arcs, `next`, `livePos` -/
+
+theorem cf_next_some {a : Acc} {v : Int} {c : Char} {t : Int} (h : a.next v c = some t) :
+    ∃ j, nucIdx c = some j ∧ j ∈ a.live v ∧ t = a.ent v j := by
+  unfold Acc.next at h
+  cases hc : nucIdx c with
+  | none => simp [hc] at h
+  | some j =>
+    simp only [hc] at h
+    split at h
+    · rename_i hge
+      refine ⟨j, rfl, (mem_live_iff a v j).2 ⟨nucIdx_lt hc, hge⟩, ?_⟩
+      simpa using h.symm
+    · simp at h
+
+theorem cf_next_of_live {a : Acc} {v : Int} {c : Char} {j : Nat} (hc : nucIdx c = some j)
+    (hj : j ∈ a.live v) : a.next v c = some (a.ent v j) := by
+  unfold Acc.next
+  simp [hc, live_ent_nonneg a v hj]
+
+theorem cf_livePos_of_live {a : Acc} {v : Int} {c : Char} {j : Nat} (hc : nucIdx c = some j)
+    (hj : j ∈ a.live v) : livePos a v c = some ((a.live v).idxOf j) := by
+  unfold livePos
+  simp [hc, hj]
+
+theorem cf_livePos_of_next_none {a : Acc} {v : Int} {c : Char} (h : a.next v c = none) :
+    livePos a v c = none := by
+  unfold livePos
+  cases hc : nucIdx c with
+  | none => rfl
+  | some j =>
+    simp only
+    have hnot : j ∉ a.live v := by
+      intro hj
+      rw [cf_next_of_live hc hj] at h
+      cases h
+    simp [hnot]
+
+theorem cf_outDeg_pos {a : Acc} {v : Int} {j : Nat} (hj : j ∈ a.live v) : 1 ≤ a.outDeg v := by
+  unfold Acc.outDeg
+  exact List.length_pos_of_mem hj
+
+/-- the only arc of an out-degree-1 vertex. -/
+theorem cf_forced_mem {a : Acc} {v : Int} (h : a.outDeg v = 1) : (a.live v).getD 0 0 ∈ a.live v := by
+  unfold Acc.outDeg at h
+  have h0 : 0 < (a.live v).length := by omega
+  rw [list_getD_eq_getElem _ _ h0]
+  exact List.getElem_mem h0
+
+theorem cf_forced_unique {a : Acc} {v : Int} (h : a.outDeg v = 1) {j : Nat} (hj : j ∈ a.live v) :
+    j = (a.live v).getD 0 0 := by
+  unfold Acc.outDeg at h
+  match hl : a.live v, h, hj with
+  | [x], _, hj => simpa using hj
+
+/-! ### one step of the decoder / encoder -/
+
+theorem cf_decode_step (a : Acc) (tbl : Option Tbl) (L : Nat) (v : Int) (c : Char) (s : List Char)
+    (ml : Nat) {j : Nat} (hc : nucIdx c = some j) (hj : j ∈ a.live v) :
+    decodeFastLoop a tbl L v (c :: s) ml =
+      if a.outDeg v = 4 then
+        if ml ≥ L then .error .indexError
+        else (decodeFastLoop a tbl L (a.ent v j) s (ml + 2)).map
+          ((if ml + 1 < L then [arcDigit a tbl v j / 2, arcDigit a tbl v j % 2]
+            else [arcDigit a tbl v j / 2]) ++ ·)
+      else if a.outDeg v = 2 then
+        if ml ≥ L then .error .indexError
+        else (decodeFastLoop a tbl L (a.ent v j) s (ml + 1)).map (arcDigit a tbl v j % 2 :: ·)
+      else if a.outDeg v = 1 then decodeFastLoop a tbl L (a.ent v j) s ml
+      else .error .valueError := by
+  rw [decodeFastLoop]
+  simp only [cf_livePos_of_live hc hj, hc, Option.getD_some, arcDigit, Acc.outDeg]
+  rfl
+
+theorem cf_decode_step_none (a : Acc) (tbl : Option Tbl) (L : Nat) (v : Int) (c : Char) (s : List Char)
+    (ml : Nat) (h : a.next v c = none) :
+    decodeFastLoop a tbl L v (c :: s) ml = .error .valueError := by
+  rw [decodeFastLoop]
+  simp only [cf_livePos_of_next_none h]
+
+theorem cf_map_ok {α β} {f : α → β} {x : R α} {y : β} (h : x.map f = .ok y) :
+    ∃ x', x = .ok x' ∧ y = f x' := by
+  cases x with
+  | error e => cases h
+  | ok x' =>
+    refine ⟨x', rfl, ?_⟩
+    simpa [Except.map] using h.symm
+
+/-- inversion of one encoder step. -/
+theorem cf_encode_cons {a : Acc} {tbl : Option Tbl} {f : Nat} {v : Int} {b0 : Nat} {rest : List Nat}
+    {s : List Char} (h : encodeFastLoop a tbl (f + 1) v (b0 :: rest) = .ok s) :
+    (a.outDeg v = 4 ∧ ∃ s', s = nucChar (selectArc a tbl v (b0 * 2 + rest.headD 0)) :: s' ∧
+      encodeFastLoop a tbl f (a.ent v (selectArc a tbl v (b0 * 2 + rest.headD 0))) (rest.drop 1) = .ok s') ∨
+    (a.outDeg v = 2 ∧ ∃ s', s = nucChar (selectArc a tbl v b0) :: s' ∧
+      encodeFastLoop a tbl f (a.ent v (selectArc a tbl v b0)) rest = .ok s') ∨
+    (a.outDeg v = 1 ∧ ∃ s', s = nucChar ((a.live v).getD 0 0) :: s' ∧
+      encodeFastLoop a tbl f (a.ent v ((a.live v).getD 0 0)) (b0 :: rest) = .ok s') := by
+  rw [encodeFastLoop] at h
+  simp only at h
+  by_cases h4 : (a.live v).length = 4
+  · rw [if_pos h4] at h
+    obtain ⟨s', hs', rfl⟩ := cf_map_ok h
+    exact Or.inl ⟨h4, s', rfl, hs'⟩
+  · rw [if_neg h4] at h
+    by_cases h2 : (a.live v).length = 2
+    · rw [if_pos h2] at h
+      obtain ⟨s', hs', rfl⟩ := cf_map_ok h
+      exact Or.inr (Or.inl ⟨h2, s', rfl, hs'⟩)
+    · rw [if_neg h2] at h
+      by_cases h1 : (a.live v).length = 1
+      · rw [if_pos h1] at h
+        obtain ⟨s', hs', rfl⟩ := cf_map_ok h
+        exact Or.inr (Or.inr ⟨h1, s', rfl, hs'⟩)
+      · rw [if_neg h1] at h
+        cases h
+
+theorem cf_encode_nil {a : Acc} {tbl : Option Tbl} {f : Nat} {v : Int} {s : List Char}
+    (h : encodeFastLoop a tbl f v [] = .ok s) : s = [] := by
+  cases f with
+  | zero => simp [encodeFastLoop] at h
+  | succ f => simpa [encodeFastLoop] using h.symm
+
+theorem cf_isBits_cons {b : Nat} {r : List Nat} (h : IsBits (b :: r)) : b < 2 ∧ IsBits r :=
+  ⟨h b (by simp), fun x hx => h x (by simp [hx])⟩
+
+theorem cf_isBits_drop {r : List Nat} (h : IsBits r) (n : Nat) : IsBits (r.drop n) :=
+  fun x hx => h x (List.mem_of_mem_drop hx)
+
+theorem cf_headD_lt {r : List Nat} (h : IsBits r) : r.headD 0 < 2 := by
+  cases r with
+  | nil => simp
+  | cons x r => exact h x (by simp)
+
+/-! ### round trip (C01) -/
+
+/-- decoding what the encoder emitted for `bits`, starting at message position `ml` with
+`ml + bits.length = L`, writes exactly `bits`. Any graph, any table, any fuel. -/
+theorem cf_decode_encode (a : Acc) (tbl : Option Tbl) (L : Nat) :
+    ∀ (f : Nat) (v : Int) (bits : List Nat) (ml : Nat) (s : List Char), IsBits bits →
+      encodeFastLoop a tbl f v bits = .ok s → ml + bits.length = L →
+      decodeFastLoop a tbl L v s ml = .ok bits := by
+  intro f
+  induction f with
+  | zero => intro v bits ml s _ h; simp [encodeFastLoop] at h
+  | succ f ih =>
+    intro v bits ml s hb h hl
+    cases bits with
+    | nil =>
+      rw [cf_encode_nil h]
+      simp [decodeFastLoop]
+    | cons b0 rest =>
+      obtain ⟨hb0, hrest⟩ := cf_isBits_cons hb
+      have hr0 := cf_headD_lt hrest
+      simp only [List.length_cons] at hl
+      rcases cf_encode_cons h with ⟨h4, s', rfl, hs'⟩ | ⟨h2, s', rfl, hs'⟩ | ⟨h1, s', rfl, hs'⟩
+      · have hd : b0 * 2 + rest.headD 0 < a.outDeg v := by omega
+        have hj := selectArc_mem a tbl v hd
+        rw [cf_decode_step a tbl L v _ s' ml (nucIdx_nucChar _ (live_lt_four a v hj)) hj,
+          if_pos h4, if_neg (by omega), arcDigit_selectArc a tbl v hd]
+        cases rest with
+        | nil =>
+          rw [cf_encode_nil hs']
+          simp only [List.length_nil] at hl
+          simp [decodeFastLoop, Except.map, show ¬ (ml + 1 < L) by omega]
+        | cons b1 r =>
+          simp only [List.length_cons] at hl
+          have hb1 : b1 < 2 := hrest b1 (by simp)
+          rw [ih _ _ (ml + 2) s' (cf_isBits_drop hrest 1) hs' (by simp; omega)]
+          simp only [Except.map, List.headD_cons, if_pos (show ml + 1 < L by omega), List.drop_one,
+            List.tail_cons, List.cons_append, List.nil_append]
+          have e1 : (b0 * 2 + b1) / 2 = b0 := by omega
+          have e2 : (b0 * 2 + b1) % 2 = b1 := by omega
+          rw [e1, e2]
+      · have hd : b0 < a.outDeg v := by omega
+        have hj := selectArc_mem a tbl v hd
+        rw [cf_decode_step a tbl L v _ s' ml (nucIdx_nucChar _ (live_lt_four a v hj)) hj,
+          if_neg (by omega), if_pos h2, if_neg (by omega), arcDigit_selectArc a tbl v hd,
+          ih _ _ (ml + 1) s' hrest hs' (by omega)]
+        simp only [Except.map]
+        rw [Nat.mod_eq_of_lt hb0]
+      · have hj := cf_forced_mem h1
+        rw [cf_decode_step a tbl L v _ s' ml (nucIdx_nucChar _ (live_lt_four a v hj)) hj,
+          if_neg (by omega), if_neg (by omega), if_pos h1]
+        exact ih _ _ ml s' hb hs' (by simp; omega)
+
+theorem cf_vtMatches_setVt {s c : List Char} {n : Nat} (hn : n > 0) (h : setVt s n = .ok c) :
+    vtMatches s (some c) = .ok true := by
+  unfold vtMatches
+  simp only [setVt_length hn h, h, Except.map, beq_self_eq_true]
+
+/-- an `.ok` fast-mode `encode` is an `.ok` loop plus a matching check. -/
+theorem cf_encode_fast_ok {a : Acc} {tbl : Option Tbl} {v : Int} {bits : List Nat} {vtLen fuel : Nat}
+    {s : List Char} {c : Option (List Char)}
+    (h : encode a tbl v bits true vtLen fuel = .ok (s, c)) :
+    encodeFastLoop a tbl fuel v bits = .ok s ∧ vtMatches s c = .ok true := by
+  unfold encode at h
+  simp only [if_true, bind, Except.bind, pure, Except.pure] at h
+  cases hs : encodeFastLoop a tbl fuel v bits with
+  | error e => rw [hs] at h; cases h
+  | ok s0 =>
+    rw [hs] at h
+    simp only at h
+    by_cases hv : vtLen > 0
+    · rw [if_pos hv] at h
+      cases hc : setVt s0 vtLen with
+      | error e => rw [hc] at h; cases h
+      | ok c0 =>
+        rw [hc] at h
+        simp only [Except.ok.injEq, Prod.mk.injEq] at h
+        obtain ⟨rfl, rfl⟩ := h
+        exact ⟨rfl, cf_vtMatches_setVt hv hc⟩
+    · rw [if_neg hv] at h
+      simp only [Except.ok.injEq, Prod.mk.injEq] at h
+      obtain ⟨rfl, rfl⟩ := h
+      exact ⟨rfl, rfl⟩
+
+theorem cf_decode_fast_eq {a : Acc} {tbl : Option Tbl} {v : Int} {s : List Char} {L : Nat}
+    {chk : Option (List Char)} (hc : vtMatches s chk = .ok true) :
+    decode a tbl v s L true chk =
+      (decodeFastLoop a tbl L v s 0).map fun bits => bits ++ List.replicate (L - bits.length) 0 := by
+  unfold decode
+  simp only [hc, bind, Except.bind, pure, Except.pure, Bool.not_true, if_true]
+  cases decodeFastLoop a tbl L v s 0 <;> rfl
+
+theorem cf_C01_fast (a : Acc) (tbl : Option Tbl) (v : Int) (bits : List Nat) (vtLen fuel : Nat)
+    (s : List Char) (c : Option (List Char)) (hb : IsBits bits)
+    (h : encode a tbl v bits true vtLen fuel = .ok (s, c)) :
+    decode a tbl v s bits.length true c = .ok bits := by
+  obtain ⟨hs, hc⟩ := cf_encode_fast_ok h
+  rw [cf_decode_fast_eq hc, cf_decode_encode a tbl bits.length fuel v bits 0 s hb hs (by simp)]
+  simp [Except.map]
+
+/-! ### the bits carried by a walk, with the decoder's digit -/
+
+/-- `walkBits` with the decoder's `arcDigit` in place of the documented `arcRank` (equal under
+`DistinctKeys`, see `cf_walkBitsD_eq`). -/
+def walkBitsD (a : Acc) (tbl : Option Tbl) : Int → List Char → List Nat
+  | _, [] => []
+  | v, c :: s =>
+    let j := (nucIdx c).getD 0
+    let d := arcDigit a tbl v j
+    (if a.outDeg v = 4 then [d / 2, d % 2] else if a.outDeg v = 2 then [d] else []) ++
+      walkBitsD a tbl (a.ent v j) s
+
+theorem cf_walkBitsD_length (a : Acc) (tbl : Option Tbl) (v : Int) (s : List Char) :
+    (walkBitsD a tbl v s).length = (walkBits a tbl v s).length := by
+  induction s generalizing v with
+  | nil => rfl
+  | cons c s ih =>
+    simp only [walkBitsD, walkBits, List.length_append, ih]
+    congr 1
+    split
+    · rfl
+    · split <;> rfl
+
+theorem cf_isWalk_cons {a : Acc} {v : Int} {c : Char} {s : List Char} (h : isWalk a v (c :: s) = true) :
+    ∃ j, nucIdx c = some j ∧ j ∈ a.live v ∧ isWalk a (a.ent v j) s = true := by
+  rw [isWalk] at h
+  cases hn : a.next v c with
+  | none => simp [hn] at h
+  | some t =>
+    obtain ⟨j, hc, hj, rfl⟩ := cf_next_some hn
+    simp only [hn] at h
+    exact ⟨j, hc, hj, h⟩
+
+theorem cf_isWalk_cons_of_live {a : Acc} {v : Int} {c : Char} {j : Nat} (s : List Char)
+    (hc : nucIdx c = some j) (hj : j ∈ a.live v) : isWalk a v (c :: s) = isWalk a (a.ent v j) s := by
+  rw [isWalk]
+  simp only [cf_next_of_live hc hj]
+
+theorem cf_walkBitsD_eq (a : Acc) (tbl : Option Tbl) (hd : ∀ v, DistinctKeys a tbl v) (v : Int)
+    (s : List Char) (hw : isWalk a v s = true) : walkBitsD a tbl v s = walkBits a tbl v s := by
+  induction s generalizing v with
+  | nil => rfl
+  | cons c s ih =>
+    obtain ⟨j, hc, hj, hw'⟩ := cf_isWalk_cons hw
+    simp only [walkBitsD, walkBits, hc, Option.getD_some, ih _ hw', arcDigit_eq_arcRank a tbl v hj (hd v)]
+
+/-- longest prefix of `s` that is a walk from `v` (same recursion as `walkablePrefix` of C06). -/
+def cfWalkablePrefix (a : Acc) : Int → List Char → List Char
+  | _, [] => []
+  | v, c :: s => match a.next v c with
+    | some t => c :: cfWalkablePrefix a t s
+    | none => []
+
+theorem cf_walkablePrefix_of_isWalk (a : Acc) (v : Int) (s : List Char) (hw : isWalk a v s = true) :
+    cfWalkablePrefix a v s = s := by
+  induction s generalizing v with
+  | nil => rfl
+  | cons c s ih =>
+    obtain ⟨j, hc, hj, hw'⟩ := cf_isWalk_cons hw
+    simp only [cfWalkablePrefix, cf_next_of_live hc hj, ih _ hw']
+
+theorem cf_isWalk_walkablePrefix (a : Acc) (v : Int) (s : List Char) :
+    isWalk a v (cfWalkablePrefix a v s) = true := by
+  induction s generalizing v with
+  | nil => rfl
+  | cons c s ih =>
+    simp only [cfWalkablePrefix]
+    cases hn : a.next v c with
+    | none => rfl
+    | some t =>
+      simp only [isWalk, hn]
+      exact ih t
+
+/-- every vertex along a walk is reachable. -/
+theorem cf_reach_walkEnd_take (a : Acc) (v : Int) (p : List Char) (i : Nat)
+    (hw : isWalk a v p = true) : a.Reach v (walkEnd a v (p.take i)) := by
+  induction p generalizing v i with
+  | nil => simpa [walkEnd] using Acc.Reach.refl (a := a) v
+  | cons c p ih =>
+    cases i with
+    | zero => exact Acc.Reach.refl v
+    | succ i =>
+      obtain ⟨j, hc, hj, hw'⟩ := cf_isWalk_cons hw
+      simp only [List.take_succ_cons, walkEnd, hc, Option.getD_some]
+      exact Acc.Reach.step v j _ hj (ih _ i hw')
+
+/-! ### the decoder on an arbitrary string -/
+
+/-- the fast-mode decoder loop on ANY string: if no vertex on the walkable prefix has out-degree 3
+and the bits carried by the walkable prefix fit below `L`, the loop returns the carried bits on a
+walk and `ValueError` on a non-walk. -/
+theorem cf_decode_general (a : Acc) (tbl : Option Tbl) (L : Nat) :
+    ∀ (s : List Char) (v : Int) (ml : Nat),
+      (∀ i, i < (cfWalkablePrefix a v s).length →
+        a.outDeg (walkEnd a v ((cfWalkablePrefix a v s).take i)) ≠ 3) →
+      ml + (walkBitsD a tbl v (cfWalkablePrefix a v s)).length ≤ L →
+      decodeFastLoop a tbl L v s ml =
+        if isWalk a v s = true then .ok (walkBitsD a tbl v s) else .error .valueError := by
+  intro s
+  induction s with
+  | nil => intro v ml _ _; simp [decodeFastLoop, isWalk, walkBitsD]
+  | cons c s ih =>
+    intro v ml h3 hL
+    cases hn : a.next v c with
+    | none =>
+      rw [cf_decode_step_none a tbl L v c s ml hn]
+      simp [isWalk, hn]
+    | some t =>
+      obtain ⟨j, hc, hj, rfl⟩ := cf_next_some hn
+      have hwp : cfWalkablePrefix a v (c :: s) = c :: cfWalkablePrefix a (a.ent v j) s := by
+        simp only [cfWalkablePrefix, hn]
+      rw [hwp] at h3 hL
+      have h30 : a.outDeg v ≠ 3 := by simpa [walkEnd] using h3 0 (by simp)
+      have h3' : ∀ i, i < (cfWalkablePrefix a (a.ent v j) s).length →
+          a.outDeg (walkEnd a (a.ent v j) ((cfWalkablePrefix a (a.ent v j) s).take i)) ≠ 3 := by
+        intro i hi
+        have := h3 (i + 1) (by simpa using hi)
+        simpa [walkEnd, hc] using this
+      have hpos := cf_outDeg_pos hj
+      have hle := outDeg_le_four a v
+      have hdl := arcDigit_lt a tbl v hj
+      simp only [walkBitsD, hc, Option.getD_some, List.length_append] at hL
+      rw [cf_decode_step a tbl L v c s ml hc hj, cf_isWalk_cons_of_live s hc hj]
+      simp only [walkBitsD, hc, Option.getD_some]
+      by_cases h4 : a.outDeg v = 4
+      · simp only [if_pos h4, List.length_cons, List.length_nil] at hL ⊢
+        rw [if_neg (by omega), if_pos (by omega), ih _ (ml + 2) h3' (by omega)]
+        split <;> rfl
+      · by_cases h2 : a.outDeg v = 2
+        · simp only [if_neg h4, if_pos h2, List.length_cons, List.length_nil] at hL ⊢
+          rw [if_neg (by omega), ih _ (ml + 1) h3' (by omega), Nat.mod_eq_of_lt (by omega)]
+          split <;> rfl
+        · have h1 : a.outDeg v = 1 := by omega
+          simp only [if_neg h4, if_neg h2, if_pos h1, List.length_nil] at hL ⊢
+          rw [ih _ ml h3' (by omega)]
+          rfl
+
+/-! ### what the encoder emits (C05) -/
+
+theorem cf_walkBitsD_cons_live (a : Acc) (tbl : Option Tbl) (v : Int) {j : Nat} (hj : j < 4)
+    (s : List Char) :
+    walkBitsD a tbl v (nucChar j :: s) =
+      (if a.outDeg v = 4 then [arcDigit a tbl v j / 2, arcDigit a tbl v j % 2]
+        else if a.outDeg v = 2 then [arcDigit a tbl v j] else []) ++ walkBitsD a tbl (a.ent v j) s := by
+  simp only [walkBitsD, nucIdx_nucChar j hj, Option.getD_some]
+
+/-- the strand emitted by the fast encoder (any fuel, any table) is a walk, meets no vertex of
+out-degree 3, and carries the message followed by at most one padding zero. -/
+theorem cf_encode_walkBitsD (a : Acc) (tbl : Option Tbl) :
+    ∀ (f : Nat) (v : Int) (bits : List Nat) (s : List Char), IsBits bits →
+      encodeFastLoop a tbl f v bits = .ok s →
+      isWalk a v s = true ∧
+      (∀ i, i < s.length → a.outDeg (walkEnd a v (s.take i)) ≠ 3) ∧
+      (walkBitsD a tbl v s = bits ∨ walkBitsD a tbl v s = bits ++ [0]) := by
+  intro f
+  induction f with
+  | zero => intro v bits s _ h; simp [encodeFastLoop] at h
+  | succ f ih =>
+    intro v bits s hb h
+    cases bits with
+    | nil =>
+      rw [cf_encode_nil h]
+      simp [isWalk, walkBitsD]
+    | cons b0 rest =>
+      obtain ⟨hb0, hrest⟩ := cf_isBits_cons hb
+      have hr0 := cf_headD_lt hrest
+      have key : ∀ (j : Nat) (s' : List Char) (bits' : List Nat), j ∈ a.live v → a.outDeg v ≠ 3 →
+          IsBits bits' → encodeFastLoop a tbl f (a.ent v j) bits' = .ok s' →
+          isWalk a v (nucChar j :: s') = true ∧
+          (∀ i, i < (nucChar j :: s').length →
+            a.outDeg (walkEnd a v ((nucChar j :: s').take i)) ≠ 3) ∧
+          (walkBitsD a tbl (a.ent v j) s' = bits' ∨ walkBitsD a tbl (a.ent v j) s' = bits' ++ [0]) := by
+        intro j s' bits' hj hn3 hb' hs'
+        obtain ⟨hw, h3, hbits⟩ := ih _ _ s' hb' hs'
+        have hc := nucIdx_nucChar j (live_lt_four a v hj)
+        refine ⟨by rw [cf_isWalk_cons_of_live s' hc hj]; exact hw, ?_, hbits⟩
+        intro i hi
+        cases i with
+        | zero => simpa [walkEnd] using hn3
+        | succ i =>
+          simp only [List.take_succ_cons, walkEnd, hc, Option.getD_some]
+          exact h3 i (by simpa using hi)
+      rcases cf_encode_cons h with ⟨h4, s', rfl, hs'⟩ | ⟨h2, s', rfl, hs'⟩ | ⟨h1, s', rfl, hs'⟩
+      · have hd : b0 * 2 + rest.headD 0 < a.outDeg v := by omega
+        have hj := selectArc_mem a tbl v hd
+        obtain ⟨hw, h3, hbits⟩ := key _ s' _ hj (by omega) (cf_isBits_drop hrest 1) hs'
+        refine ⟨hw, h3, ?_⟩
+        rw [cf_walkBitsD_cons_live a tbl v (live_lt_four a v hj), if_pos h4,
+          arcDigit_selectArc a tbl v hd]
+        cases rest with
+        | nil =>
+          right
+          rw [cf_encode_nil hs']
+          simp only [List.headD_nil, walkBitsD]
+          simp
+        | cons b1 r =>
+          have hb1 : b1 < 2 := hrest b1 (by simp)
+          have e1 : (b0 * 2 + b1) / 2 = b0 := by omega
+          have e2 : (b0 * 2 + b1) % 2 = b1 := by omega
+          simp only [List.headD_cons, e1, e2, List.drop_one, List.tail_cons] at hbits ⊢
+          rcases hbits with hbits | hbits
+          · left; rw [hbits]; rfl
+          · right; rw [hbits]; rfl
+      · have hd : b0 < a.outDeg v := by omega
+        have hj := selectArc_mem a tbl v hd
+        obtain ⟨hw, h3, hbits⟩ := key _ s' _ hj (by omega) hrest hs'
+        refine ⟨hw, h3, ?_⟩
+        rw [cf_walkBitsD_cons_live a tbl v (live_lt_four a v hj), if_neg (by omega), if_pos h2,
+          arcDigit_selectArc a tbl v hd]
+        rcases hbits with hbits | hbits
+        · left; rw [hbits]; rfl
+        · right; rw [hbits]; rfl
+      · have hj := cf_forced_mem h1
+        obtain ⟨hw, h3, hbits⟩ := key _ s' _ hj (by omega) hb hs'
+        refine ⟨hw, h3, ?_⟩
+        rw [cf_walkBitsD_cons_live a tbl v (live_lt_four a v hj), if_neg (by omega), if_neg (by omega)]
+        simpa using hbits
+
+theorem cf_C05_fast_meets_spec (a : Acc) (tbl : Option Tbl) (v : Int) (bits : List Nat)
+    (vtLen fuel : Nat) (s : List Char) (c : Option (List Char)) (hb : IsBits bits)
+    (hd : ∀ v, DistinctKeys a tbl v) (h : encode a tbl v bits true vtLen fuel = .ok (s, c)) :
+    isWalk a v s = true ∧ (walkBits a tbl v s = bits ∨ walkBits a tbl v s = bits ++ [0]) := by
+  obtain ⟨hw, _, hbits⟩ := cf_encode_walkBitsD a tbl fuel v bits s hb (cf_encode_fast_ok h).1
+  rw [cf_walkBitsD_eq a tbl hd v s hw] at hbits
+  exact ⟨hw, hbits⟩
+
+/-- decoding a walk without out-degree-3 vertices whose bits fit: the carried bits (decoder's
+digits), zero-padded to `L`. Any table. -/
+theorem cf_decode_walk (a : Acc) (tbl : Option Tbl) (v : Int) (s : List Char) (L : Nat)
+    (chk : Option (List Char)) (hc : vtMatches s chk = .ok true) (hw : isWalk a v s = true)
+    (h3 : ∀ i, i < s.length → a.outDeg (walkEnd a v (s.take i)) ≠ 3)
+    (hL : (walkBitsD a tbl v s).length ≤ L) :
+    decode a tbl v s L true chk =
+      .ok (walkBitsD a tbl v s ++ List.replicate (L - (walkBitsD a tbl v s).length) 0) := by
+  have hp := cf_walkablePrefix_of_isWalk a v s hw
+  rw [cf_decode_fast_eq hc, cf_decode_general a tbl L s v 0 (by rw [hp]; exact h3)
+    (by rw [hp]; omega), if_pos hw]
+  rfl
+
+theorem cf_C05_fast_decode_value (a : Acc) (tbl : Option Tbl) (v : Int) (s : List Char) (L : Nat)
+    (hd : ∀ v, DistinctKeys a tbl v) (hw : isWalk a v s = true)
+    (h3 : ∀ i, i < s.length → a.outDeg (walkEnd a v (s.take i)) ≠ 3)
+    (hL : (walkBits a tbl v s).length ≤ L) :
+    decode a tbl v s L true none =
+      .ok (walkBits a tbl v s ++ List.replicate (L - (walkBits a tbl v s).length) 0) := by
+  rw [← cf_walkBitsD_eq a tbl hd v s hw] at hL ⊢
+  exact cf_decode_walk a tbl v s L none rfl hw h3 hL
+
+/-! ### acceptance (C06) -/
+
+/-- a failing check is a `ValueError`, whatever the mode. -/
+theorem cf_decode_check_fail (a : Acc) (tbl : Option Tbl) (v : Int) (s : List Char) (L : Nat)
+    (fast : Bool) (chk : Option (List Char)) (hc : vtMatches s chk ≠ .ok true) :
+    decode a tbl v s L fast chk = .error .valueError := by
+  unfold decode
+  cases chk with
+  | none => exact absurd rfl hc
+  | some c =>
+    by_cases hs : IsAcgt s
+    · have h1 : vtMatches s (some c) = .ok (nucChar ((s.map fun c => (nucIdx c).getD 0).sum % 4) ::
+        numberToDnaInt
+          (((List.range ((s.map fun c => (nucIdx c).getD 0).length - 1)).filter fun j =>
+            (s.map fun c => (nucIdx c).getD 0).getD j 0 <
+              (s.map fun c => (nucIdx c).getD 0).getD (j + 1) 0).sum % 4 ^ (c.length - 1))
+          (c.length - 1) == c) := by
+        unfold vtMatches
+        simp only [setVt_ok_vt c.length hs, Except.map]
+      rw [h1] at hc ⊢
+      generalize (_ == c) = b at hc ⊢
+      cases b with
+      | true => exact absurd rfl hc
+      | false => rfl
+    · have h1 : vtMatches s (some c) = .error .valueError := by
+        unfold vtMatches
+        simp only [setVt_err c.length hs, Except.map]
+      rw [h1]
+      rfl
+
+theorem cf_C06_fast (a : Acc) (tbl : Option Tbl) (v : Int) (s : List Char) (L : Nat)
+    (chk : Option (List Char)) (h3 : a.NoDeg3From v)
+    (hL : (walkBits a tbl v (cfWalkablePrefix a v s)).length ≤ L) :
+    (isWalk a v s = true ∧ vtMatches s chk = .ok true →
+        ∃ bits, decode a tbl v s L true chk = .ok bits ∧ bits.length = L) ∧
+    (¬ (isWalk a v s = true ∧ vtMatches s chk = .ok true) →
+        decode a tbl v s L true chk = .error .valueError) := by
+  rw [← cf_walkBitsD_length] at hL
+  have hgen := cf_decode_general a tbl L s v 0
+    (fun i _ => h3 _ (cf_reach_walkEnd_take a v _ i (cf_isWalk_walkablePrefix a v s))) (by omega)
+  constructor
+  · rintro ⟨hw, hc⟩
+    rw [cf_walkablePrefix_of_isWalk a v s hw] at hL
+    rw [cf_decode_fast_eq hc, hgen, if_pos hw]
+    refine ⟨_, rfl, ?_⟩
+    simp only [List.length_append, List.length_replicate]
+    omega
+  · intro hn
+    by_cases hc : vtMatches s chk = .ok true
+    · have hw : ¬ isWalk a v s = true := fun hw => hn ⟨hw, hc⟩
+      rw [cf_decode_fast_eq hc, hgen, if_neg hw]
+      rfl
+    · exact cf_decode_check_fail a tbl v s L true chk hc
+
+/-! ### totality of the fast encoder (C01_total) -/
+
+theorem cf_reach_trans {a : Acc} {u v w : Int} (h1 : a.Reach v u) (h2 : a.Reach u w) : a.Reach v w := by
+  induction h1 with
+  | refl => exact h2
+  | step v j _ hj _ ih => exact Acc.Reach.step v j _ hj (ih h2)
+
+theorem cf_goodFrom_reach {a : Acc} {v u : Int} (hg : a.GoodFrom v) (h : a.Reach v u) : a.GoodFrom u :=
+  fun w hw => hg w (cf_reach_trans h hw)
+
+theorem cf_noDeg3_reach {a : Acc} {v u : Int} (hg : a.NoDeg3From v) (h : a.Reach v u) : a.NoDeg3From u :=
+  fun w hw => hg w (cf_reach_trans h hw)
+
+theorem cf_reach_arc {a : Acc} {v : Int} {j : Nat} (hj : j ∈ a.live v) : a.Reach v (a.ent v j) :=
+  Acc.Reach.step v j _ hj (Acc.Reach.refl _)
+
+/-- the forced successor (the only one at an out-degree-1 vertex). -/
+def cfNext (a : Acc) (u : Int) : Int := a.ent u ((a.live u).getD 0 0)
+
+/-- `n` forced steps. -/
+def cfIter (a : Acc) : Nat → Int → Int
+  | 0, u => u
+  | n + 1, u => cfIter a n (cfNext a u)
+
+theorem cfIter_add (a : Acc) (m k : Nat) (u : Int) : cfIter a (m + k) u = cfIter a k (cfIter a m u) := by
+  induction m generalizing u with
+  | zero => simp [cfIter]
+  | succ m ih =>
+    rw [show m + 1 + k = (m + k) + 1 by omega]
+    simp only [cfIter]
+    exact ih _
+
+/-- from a vertex that reaches a branching vertex, the forced path reaches a vertex of out-degree
+`≠ 1` after `n` steps through out-degree-1 vertices. -/
+theorem cf_forced_dist {a : Acc} {u w : Int} (h : a.Reach u w) (hw : a.outDeg w ≥ 2) :
+    ∃ n, a.outDeg (cfIter a n u) ≠ 1 ∧ ∀ m, m < n → a.outDeg (cfIter a m u) = 1 := by
+  induction h with
+  | refl => exact ⟨0, by simp only [cfIter]; omega, fun m hm => by omega⟩
+  | step u j w hj _ ih =>
+    by_cases h1 : a.outDeg u = 1
+    · obtain ⟨n, hn, hm⟩ := ih hw
+      have hju : a.ent u j = cfNext a u := by rw [cfNext, ← cf_forced_unique h1 hj]
+      rw [hju] at hn hm
+      refine ⟨n + 1, hn, ?_⟩
+      intro m hlt
+      cases m with
+      | zero => exact h1
+      | succ m => exact hm m (by omega)
+    · exact ⟨0, h1, fun m hm => by omega⟩
+
+theorem cf_reach_iter {a : Acc} (n : Nat) (u : Int) (h : ∀ m, m < n → a.outDeg (cfIter a m u) = 1) :
+    a.Reach u (cfIter a n u) := by
+  induction n generalizing u with
+  | zero => exact Acc.Reach.refl u
+  | succ n ih =>
+    have h0 : a.outDeg u = 1 := h 0 (by omega)
+    simp only [cfIter]
+    refine cf_reach_trans (cf_reach_arc (cf_forced_mem h0)) (ih _ ?_)
+    intro m hm
+    exact h (m + 1) (by omega)
+
+/-- pigeonhole: a forced path through out-degree-1 vertices inside `[0, N)` that ends in a vertex of
+another out-degree has fewer than `N` steps. -/
+theorem cf_forced_bound {a : Acc} {N n : Nat} {u : Int}
+    (hr : ∀ m, m ≤ n → 0 ≤ cfIter a m u ∧ cfIter a m u < (N : Int))
+    (hn : a.outDeg (cfIter a n u) ≠ 1) (hm : ∀ m, m < n → a.outDeg (cfIter a m u) = 1) : n < N := by
+  have hinj : ∀ i j, i < j → j ≤ n → cfIter a i u ≠ cfIter a j u := by
+    intro i j hij hjn he
+    have h1 : cfIter a (i + (n - j)) u = cfIter a n u := by
+      rw [cfIter_add, he, ← cfIter_add]
+      congr 1
+      omega
+    exact hn (h1 ▸ hm (i + (n - j)) (by omega))
+  have hnd : ((List.range (n + 1)).map fun m => (cfIter a m u).toNat).Nodup := by
+    rw [List.Nodup, List.pairwise_map]
+    refine (List.pairwise_lt_range (n := n + 1)).imp_of_mem ?_
+    intro i j hi hj hij he
+    rw [List.mem_range] at hi hj
+    have := hr i (by omega)
+    have := hr j (by omega)
+    exact hinj i j hij (by omega) (by omega)
+  have hsub : ((List.range (n + 1)).map fun m => (cfIter a m u).toNat) ⊆ List.range N := by
+    intro x hx
+    rw [List.mem_map] at hx
+    obtain ⟨m, hm', rfl⟩ := hx
+    rw [List.mem_range] at hm' ⊢
+    have := hr m (by omega)
+    omega
+  have := hnd.length_le_of_subset hsub
+  simp only [List.length_map, List.length_range] at this
+  omega
+
+theorem cf_map_isOk {α β} {f : α → β} {x : R α} (h : ∃ s, x = .ok s) : ∃ s, x.map f = .ok s := by
+  obtain ⟨s, rfl⟩ := h
+  exact ⟨f s, rfl⟩
+
+/-- `n` forced steps cost `n` units of fuel and no bits. -/
+theorem cf_encode_forced (a : Acc) (tbl : Option Tbl) (b0 : Nat) (rest : List Nat) :
+    ∀ (n : Nat) (u : Int) (f : Nat), (∀ m, m < n → a.outDeg (cfIter a m u) = 1) →
+      (∃ s, encodeFastLoop a tbl f (cfIter a n u) (b0 :: rest) = .ok s) →
+      ∃ s, encodeFastLoop a tbl (n + f) u (b0 :: rest) = .ok s := by
+  intro n
+  induction n with
+  | zero => intro u f _ h; simpa [cfIter] using h
+  | succ n ih =>
+    intro u f hm h
+    have h0 : a.outDeg u = 1 := hm 0 (by omega)
+    have h0' : (a.live u).length = 1 := h0
+    rw [show n + 1 + f = (n + f) + 1 by omega, encodeFastLoop]
+    simp only [h0', if_neg (show ¬ (1 = 4) by omega), if_neg (show ¬ (1 = 2) by omega), if_true]
+    apply cf_map_isOk
+    exact ih (cfNext a u) f (fun m hm' => hm (m + 1) (by omega)) h
+
+/-- the fast encoder loop returns with fuel `L·|V| + 1` on a good graph without out-degree 3. -/
+theorem cf_encode_total (a : Acc) (tbl : Option Tbl) :
+    ∀ (L : Nat) (bits : List Nat) (u : Int) (fuel : Nat), bits.length ≤ L → IsBits bits →
+      a.GoodFrom u → a.NoDeg3From u → L * a.size + 1 ≤ fuel →
+      ∃ s, encodeFastLoop a tbl fuel u bits = .ok s := by
+  intro L
+  induction L with
+  | zero =>
+    intro bits u fuel hl _ _ _ hf
+    have : bits = [] := List.eq_nil_of_length_eq_zero (by omega)
+    subst this
+    obtain ⟨f, rfl⟩ : ∃ f, fuel = f + 1 := ⟨fuel - 1, by omega⟩
+    exact ⟨[], by simp [encodeFastLoop]⟩
+  | succ L ih =>
+    intro bits u fuel hl hb hg h3 hf
+    cases bits with
+    | nil =>
+      obtain ⟨f, rfl⟩ : ∃ f, fuel = f + 1 := ⟨fuel - 1, by omega⟩
+      exact ⟨[], by simp [encodeFastLoop]⟩
+    | cons b0 rest =>
+      obtain ⟨hb0, hrest⟩ := cf_isBits_cons hb
+      have hr0 := cf_headD_lt hrest
+      simp only [List.length_cons] at hl
+      obtain ⟨w, hw, hwd⟩ := (hg u (Acc.Reach.refl u)).2.2
+      obtain ⟨n, hn, hm⟩ := cf_forced_dist hw hwd
+      have hreach : ∀ m, m ≤ n → a.Reach u (cfIter a m u) :=
+        fun m hmn => cf_reach_iter m u (fun k hk => hm k (by omega))
+      have hnN : n < a.size :=
+        cf_forced_bound (fun m hmn => (hg _ (hreach m hmn)).1) hn hm
+      have hmul : (L + 1) * a.size = L * a.size + a.size := Nat.succ_mul L a.size
+      obtain ⟨f, rfl⟩ : ∃ f, fuel = n + (f + 1) := ⟨fuel - n - 1, by omega⟩
+      have hf' : L * a.size + 1 ≤ f := by omega
+      apply cf_encode_forced a tbl b0 rest n u (f + 1) hm
+      have hrw := hreach n (Nat.le_refl n)
+      generalize cfIter a n u = x at hn hrw
+      have hgx := cf_goodFrom_reach hg hrw
+      have h3x := cf_noDeg3_reach h3 hrw
+      have hx1 : a.outDeg x ≥ 1 := (hg x hrw).2.1
+      have hx3 : a.outDeg x ≠ 3 := h3 x hrw
+      have hx4 := outDeg_le_four a x
+      rw [encodeFastLoop]
+      simp only
+      by_cases h4 : (a.live x).length = 4
+      · rw [if_pos h4]
+        have hd : b0 * 2 + rest.headD 0 < a.outDeg x := by rw [Acc.outDeg]; omega
+        have hj := cf_reach_arc (selectArc_mem a tbl x hd)
+        apply cf_map_isOk
+        exact ih _ _ f (by simp; omega) (cf_isBits_drop hrest 1) (cf_goodFrom_reach hgx hj)
+          (cf_noDeg3_reach h3x hj) hf'
+      · have h2 : (a.live x).length = 2 := by rw [Acc.outDeg] at hx1 hx3 hx4 hn; omega
+        rw [if_neg h4, if_pos h2]
+        have hd : b0 < a.outDeg x := by rw [Acc.outDeg]; omega
+        have hj := cf_reach_arc (selectArc_mem a tbl x hd)
+        apply cf_map_isOk
+        exact ih _ _ f (by omega) hrest (cf_goodFrom_reach hgx hj) (cf_noDeg3_reach h3x hj) hf'
+
+theorem cf_isAcgt_of_isWalk (a : Acc) (v : Int) (s : List Char) (hw : isWalk a v s = true) :
+    IsAcgt s := by
+  induction s generalizing v with
+  | nil => intro c hc; cases hc
+  | cons c s ih =>
+    obtain ⟨j, hc, _, hw'⟩ := cf_isWalk_cons hw
+    intro x hx
+    rcases List.mem_cons.1 hx with rfl | hx
+    · simp [hc]
+    · exact ih _ hw' x hx
+
+theorem cf_C01_total_fast (a : Acc) (tbl : Option Tbl) (v : Int) (bits : List Nat) (vtLen : Nat)
+    (hb : IsBits bits) (hg : a.GoodFrom v) (h3 : a.NoDeg3From v) :
+    ∃ s c, encode a tbl v bits true vtLen (encodeFuel a bits) = .ok (s, c) := by
+  obtain ⟨s, hs⟩ := cf_encode_total a tbl bits.length bits v (encodeFuel a bits) (Nat.le_refl _) hb hg h3
+    (Nat.le_refl _)
+  have hw := (cf_encode_walkBitsD a tbl _ v bits s hb hs).1
+  unfold encode
+  simp only [if_true, hs, bind, Except.bind, pure, Except.pure]
+  by_cases hv : vtLen > 0
+  · rw [if_pos hv, setVt_ok_vt vtLen (cf_isAcgt_of_isWalk a v s hw)]
+    exact ⟨_, _, rfl⟩
+  · rw [if_neg hv]
+    exact ⟨_, _, rfl⟩
 
 end Dsw
